@@ -43,7 +43,10 @@ RULE = ("values = random trees over the JSON-native domain (every C0 control, 0x
         "that knows only its own type and raises TypeError otherwise - dates/times must still be written, paths/sets/complex are then "
         "out of domain), passed as json_default= or as a deprecated encoder= class, and out-of-domain leaves (bytes, non-str keys, lone surrogates, "
         "unsupported objects, aware time, over-range ints); messages = dicts of such values fed in groups of 1-6 to a "
-        "binary and a text instrumented file; logging programs = nested start_action / log_message with such fields; "
+        "binary and a text instrumented file, 30% of the groups offering the same dict object again after a change (key added / "
+        "changed / removed, nested list grown in place), every fifth group through one Destinations.send in front of 2-3 "
+        "FileDestinations with different default functions; logging programs = nested start_action / log_message with such fields "
+        "under to_file with 2-4 files registered together, 40% of them with differing default functions (each file judged against its own); "
         "non-trivial = the value holds an escape-requiring character, a boundary number or nesting >= 3; distinct by canonical hash")
 TRUSTED = ["orjson's float printer (the float token handed to the model is orjson's own text for that float) and Python's float parser",
            "CPython's UTF-8 codec as the meaning of bytes<->text (the model has its own UTF-8 codec, compared byte-exactly)",
@@ -860,16 +863,110 @@ def calls_for_model(calls):
     return out
 
 
-def feed_direct(msgs, ext, text, via="default"):
-    """real FileDestination on an instrumented file; returns (calls, per-message outcome, per-message slice)"""
+def morph(o, new):
+    """turn the dict `o` IN PLACE into the dict `new` (same object afterwards: what a caller does who logs a dictionary,
+    changes it and logs it again); a list value that stays a list is changed in place too"""
+    items = []
+    for k, v in new.items():
+        if k in o and type(o[k]) is list and type(v) is list:
+            o[k][:] = v
+            items.append((k, o[k]))
+        else:
+            items.append((k, v))
+    o.clear()
+    o.update(items)
+
+
+def mutate_tree(rng, tree, prof):
+    """a changed copy of a message tree: add a key, change a value, grow a nested list, or nothing"""
+    import copy
+    t = copy.deepcopy(tree)
+    kvs = t["v"]
+    r = rng.random()
+    lists = [kv for kv in kvs if kv[1]["t"] == "list" and not kv[1].get("tuple")]
+    if r < 0.3 or not kvs:
+        kvs.append([{"t": "str", "v": [110, 101, 119] + [48 + len(kvs) % 10]}, g_value(rng, prof, rng.choice([0, 1, 2]))])
+    elif r < 0.6:
+        rng.choice(kvs)[1] = g_value(rng, prof, rng.choice([0, 1, 2]))
+    elif r < 0.85 and lists:
+        rng.choice(lists)[1]["v"].append(g_value(rng, prof, 1))
+    elif r < 0.92:
+        del kvs[rng.randrange(len(kvs))]
+    # keys must stay distinct
+    seen, out = set(), []
+    for kk, vv in kvs:
+        key = json.dumps(kk, sort_keys=True)
+        if key not in seen:
+            seen.add(key)
+            out.append([kk, vv])
+    t["v"] = out
+    return t
+
+
+def with_reoffers(rng, msgs, prof):
+    """insert offers of an object that was offered before, changed in between; returns (msgs, same): msgs[j] is the state
+    of the object at offer j, same[j] the index of the first offer of that very object (None: a new object)"""
+    msgs = list(msgs)
+    same = [None] * len(msgs)
+    for _ in range(rng.randint(1, 3)):
+        cands = [i for i, m in enumerate(msgs) if m["t"] == "dict" and all(k["t"] == "str" for k, _ in m["v"])]
+        if not cands:
+            break
+        i = rng.choice(cands)
+        root = same[i] if same[i] is not None else i
+        # the latest state of that object is its last offer
+        last = max(j for j in range(len(msgs)) if j == root or same[j] == root)
+        at = rng.randint(last + 1, len(msgs))
+        msgs.insert(at, mutate_tree(rng, msgs[last], prof))
+        same = [x + 1 if x is not None and x >= at else x for x in same]
+        same.insert(at, root)
+    return msgs, same
+
+
+def offered_objects(msgs, same):
+    """the objects in offer order, built / changed in place just before each offer"""
+    objs = []
+    for j, t in enumerate(msgs):
+        if same and same[j] is not None and isinstance(objs[same[j]], dict):
+            o = objs[same[j]]
+            morph(o, build(t))
+        else:
+            o = build(t)
+        objs.append(o)
+        yield o
+
+
+def snapshot(o):
+    import copy
+    try:
+        return copy.deepcopy(o)
+    except Exception:  # noqa
+        return o
+
+
+def direct_refuses(o, ext):
+    """does orjson itself, asked directly with this default function, refuse the object?"""
+    import orjson
+    try:
+        orjson.dumps(o, default=default_for(ext))
+        return False
+    except Exception:  # noqa
+        return True
+
+
+def feed_direct(msgs, same, ext, text, via="default"):
+    """real FileDestination on an instrumented file; returns (calls, per-offer outcome, per-offer slice, per-offer copy
+    of the object as it was when offered, per-offer model tree)"""
     from eliot import FileDestination
     rec = RecFile(text)
     try:
         dest = FileDestination(file=rec, **dest_kwargs(ext, via))
     except Exception as e:  # noqa
-        return rec.calls, [{"raised": type(e).__name__, "where": "constructor"}], []
-    outcomes, slices = [], []
-    for m in msgs:
+        return rec.calls, [{"raised": type(e).__name__, "where": "constructor"}], [], [], []
+    outcomes, slices, snaps, mtrees = [], [], [], []
+    for m in offered_objects(msgs, same):
+        snaps.append(snapshot(m))
+        mtrees.append(tree_of(m))
         n0 = len(rec.calls)
         try:
             dest(m)
@@ -877,7 +974,31 @@ def feed_direct(msgs, ext, text, via="default"):
         except Exception as e:  # noqa
             outcomes.append({"raised": type(e).__name__, "kind": errkind(e)})
         slices.append([n0, len(rec.calls)])
-    return rec.calls, outcomes, slices
+    return rec.calls, outcomes, slices, snaps, mtrees
+
+
+def feed_fanout(msgs, same, exts, via="default"):
+    """several FileDestinations with different default functions registered together in one `Destinations`, every message
+    object handed to all of them by `Destinations.send`; returns ([(ext, text, calls, slices)], snaps, mtrees, err)"""
+    from eliot import FileDestination
+    from eliot._output import Destinations
+    recs = [(ext, i == len(exts) - 1 and len(exts) > 2, RecFile(i == len(exts) - 1 and len(exts) > 2)) for i, ext in enumerate(exts)]
+    d = Destinations()
+    err = None
+    per = [[] for _ in recs]
+    snaps, mtrees = [], []
+    try:
+        d.add(*[FileDestination(file=rec, **dest_kwargs(ext, via)) for ext, _, rec in recs])
+        for m in offered_objects(msgs, same):
+            snaps.append(snapshot(m))
+            mtrees.append(tree_of(m))
+            n0 = [len(rec.calls) for _, _, rec in recs]
+            d.send(m)
+            for k, (_, _, rec) in enumerate(recs):
+                per[k].append([n0[k], len(rec.calls)])
+    except Exception as e:  # noqa
+        err = type(e).__name__
+    return [(ext, text, rec.calls, per[k]) for k, (ext, text, rec) in enumerate(recs)], snaps, mtrees, err
 
 
 # ---- oracles ------------------------------------------------------------------------------------
@@ -941,6 +1062,10 @@ def oracle_direct(ctx, case, msgs_obj, bad, ext, text, calls, outcomes, slices):
         shape = [c[0] for c in delta]
         if shape != ["w", "f"]:
             ctx.violation("%s file: one logging call made the calls %s instead of exactly one write then one flush" % (mode, shape), sub)
+            ok = False
+            continue
+        if bad[i] and direct_refuses(o, ext):
+            ctx.violation("%s file: a message that orjson refuses under this destination's own default function was written all the same" % mode, sub)
             ok = False
             continue
         if bad[i]:
@@ -1050,20 +1175,29 @@ def run_program(ops):
                 pass
 
 
-def feed_logging(ops, ext, via="default"):
-    """to_file(binary rec) + to_file(text rec) + a capturing destination, then the program"""
+def feed_logging(ops, ext, via="default", more=()):
+    """to_file(binary rec) + to_file(text rec) + a capturing destination (+ binary files with the other default functions
+    `more`, registered together with them), then the program; returns (..., [(ext, calls)] for `more`)"""
     import eliot
     from eliot._output import Logger, FileDestination
     recb, rect = RecFile(False), RecFile(True)
+    extra = [(e, RecFile(False)) for e in more]
     captured = []
     cap = lambda m: captured.append(dict(m))  # noqa
     dests = Logger._destinations
     before = list(dests._destinations)
     err = None
     try:
+        # whatever was logged while no destination was registered (failure reports of the direct groups) is
+        # handed to the first destination added: let a throw-away one take it
+        drain = lambda m: None  # noqa
+        eliot.add_destinations(drain)
+        eliot.remove_destination(drain)
         eliot.add_destinations(cap)
         eliot.to_file(recb, **dest_kwargs(ext, via))
         eliot.to_file(rect, **dest_kwargs(ext, via))
+        for e, rec in extra:
+            eliot.to_file(rec, **dest_kwargs(e, via))
         run_program(ops)
     except Exception as e:  # noqa
         err = type(e).__name__
@@ -1074,6 +1208,8 @@ def feed_logging(ops, ext, via="default"):
                     dests.remove(d)
                 except Exception:  # noqa
                     pass
+    if more:
+        return recb.calls, rect.calls, captured, err, [(e, rec.calls) for e, rec in extra]
     return recb.calls, rect.calls, captured, err
 
 
@@ -1082,11 +1218,11 @@ def oracle_logging(ctx, case, ext, callsb, callst, captured, err):
         ctx.violation("a logging call raised %s into the program" % err, case)
         return False
     ok = True
-    for text, calls in ((False, callsb), (True, callst)):
+    for text, calls in ((False, callsb), (True, callst)) if callst is not None else ((False, callsb),):
         mode = "text" if text else "binary"
         shape = [c[0] for c in calls[1:]]
         if shape != ["w", "f"] * len(captured):
-            ctx.violation("%s file under to_file: %d messages were logged but the file received %s (expected one write + one flush each)"
+            ctx.violation("%s file under to_file: %d logged messages are serialisable under this file's default function but the file received %s (expected one write + one flush each)"
                           % (mode, len(captured), _rle(shape)), case)
             ok = False
             continue
@@ -1096,7 +1232,7 @@ def oracle_logging(ctx, case, ext, callsb, callst, captured, err):
                 report_unfaithful(ctx, "%s file under to_file, message %d: %s" % (mode, i, why), gtree_of(m), ext, dict(case, only=i))
                 ok = False
                 break
-    if ok:
+    if ok and callst is not None:
         try:
             same = content_of(callsb, False).decode("utf-8") == content_of(callst, True)
         except UnicodeError:
@@ -1105,6 +1241,36 @@ def oracle_logging(ctx, case, ext, callsb, callst, captured, err):
             ctx.violation("text-mode content differs from binary-mode content", case)
             ok = False
     return ok
+
+
+def check_logging(ctx, case):
+    """run one logging program under to_file (binary + text file with default `ext`, plus binary files with the default
+    functions `more`), run the oracles per file against that file's own default, return (#messages, model requests)"""
+    ext, via, more = case.get("ext", False), case.get("via", "default"), list(case.get("more") or [])
+    r = feed_logging(case["ops"], ext, via, more)
+    callsb, callst, captured, err = r[:4]
+    extra = r[4] if more else []
+    out = []
+    # a message orjson itself refuses (asked directly, not through eliot) is reported by eliot as
+    # eliot:destination_failure messages and must leave no trace in the file; the oracle is about the
+    # accepted ones: one write + one flush each, in order, each line faithful
+    accepted = accepted_of(captured, ext)
+    if len(accepted) != len(captured):
+        ctx.count("programs-with-refused-message")
+    ok = oracle_logging(ctx, case, ext, callsb, callst, accepted, err)
+    if not ok:
+        ctx.count("tie-skipped:oracle-failed")
+    files = [(ext, False, callsb, ok), (ext, True, callst, ok)]
+    for k, (e, calls) in enumerate(extra):
+        okk = oracle_logging(ctx, dict(case, dest=2 + k), e, calls, None, accepted_of(captured, e), err)
+        if not okk:
+            ctx.count("tie-skipped:oracle-failed")
+        files.append((e, False, calls, okk))
+    for e, text, calls, fine in files:
+        if fine:
+            out.append((dict(mreq(e), op="file", mode="text" if text else "binary", msgs=[tree_of(m) for m in captured]),
+                        (case, "%s (default %s)" % ("text" if text else "binary", e), calls_for_model(calls))))
+    return len(captured), out
 
 
 def accepted_of(captured, ext):
@@ -1125,6 +1291,47 @@ def _rle(shape):
 
 
 # ---- run ----------------------------------------------------------------------------------------
+
+def check_group(ctx, case):
+    """feed one direct group (kind "file": one FileDestination, binary then text; kind "fanout": several destinations with
+    different default functions behind one Destinations.send), run the oracles, return the model requests"""
+    out = []
+    msgs, same, via = case["msgs"], case.get("same") or [None] * len(case["msgs"]), case.get("via", "default")
+    if case["kind"] == "fanout":
+        files, snaps, mtrees, err = feed_fanout(msgs, same, case["exts"], via)
+        if err:
+            ctx.violation("Destinations.send / FileDestination raised %s into the caller" % err, case)
+            return out
+        for k, (ext, text, calls, slices) in enumerate(files):
+            bad = [bool(bad_kinds(m, ext)) for m in msgs]
+            # Destinations.send swallows what a destination raises: a refusal shows as "nothing written"
+            outcomes = [{"ok": True} if b > a else {"raised": "(caught by Destinations.send)", "kind": "?"} for a, b in slices]
+            sub = dict(case, dest=k)
+            if oracle_direct(ctx, sub, snaps, bad, ext, text, calls, outcomes, slices):
+                out.append((dict(mreq(ext), op="file", mode="text" if text else "binary", msgs=mtrees),
+                            (sub, "%s (destination %d of %d, default %s)" % ("text" if text else "binary", k, len(files), ext), calls_for_model(calls))))
+            else:
+                ctx.count("tie-skipped:oracle-failed")
+        return out
+    ext = case["ext"]
+    bad = [bool(bad_kinds(m, ext)) for m in msgs]
+    res = {}
+    for text in (False, True):
+        calls, outcomes, slices, snaps, mtrees = feed_direct(msgs, same, ext, text, via)
+        res[text] = calls
+        if oracle_direct(ctx, case, snaps, bad, ext, text, calls, outcomes, slices):
+            out.append((dict(mreq(ext), op="file", mode="text" if text else "binary", msgs=mtrees),
+                        (case, "text" if text else "binary", calls_for_model(calls))))
+        else:
+            ctx.count("tie-skipped:oracle-failed")
+    try:
+        eq = content_of(res[False], False).decode("utf-8") == content_of(res[True], True)
+    except (UnicodeError, TypeError, AttributeError):
+        eq = False
+    if not eq:
+        ctx.violation("text-mode content differs from binary-mode content", case)
+    return out
+
 
 def check_repo():
     import eliot
@@ -1232,27 +1439,27 @@ def run(ctx):
             at = grng.randint(0, len(msgs))
             msgs.insert(at, {"t": "dict", "v": [[{"t": "str", "v": [100]}, pure_chain(grng.choice([252, 253, 254, 299]), grng.choice(["list", "dict", "mixed"]))]]})
         via = "encoder" if grng.random() < 0.25 else "default"
-        case = {"kind": "file", "msgs": msgs, "ext": ext, "via": via}
-        objs = [build(m) for m in msgs]
-        bad = [bool(bad_kinds(m, ext)) for m in msgs]
+        same = [None] * len(msgs)
+        if gi % 5 == 3:
+            # Destinations.send takes message dictionaries only
+            msgs = [m if m["t"] == "dict" else {"t": "dict", "v": [[{"t": "str", "v": [118]}, m]]} for m in msgs]
+        if grng.random() < 0.3:
+            # the caller logs a dictionary, changes it and logs the same object again
+            msgs, same = with_reoffers(grng, msgs, prof)
+        if gi % 5 == 3:
+            # several destinations with different default functions fed the same objects by Destinations.send
+            exts = grng.choice([[True, False], [False, "own"], ["own", True], [True, "own", False], [ext, ext], ["own", False, True]])
+            case = {"kind": "fanout", "msgs": msgs, "same": same, "exts": exts, "via": via}
+        else:
+            case = {"kind": "file", "msgs": msgs, "same": same, "ext": ext, "via": via}
         fs = [features(m) for m in msgs]
         ctx.case(case, nontrivial=any(e or b or d >= 3 for e, b, d, _ in fs),
-                 tags=["file-group", "profile:" + pname, "group-size:%d" % len(msgs), "file-ext:%s" % ext, "via:" + via] + (["group-with-refusal"] if any(bad) else []))
-        res = {}
-        for text in (False, True):
-            calls, outcomes, slices = feed_direct(objs, ext, text, via)
-            res[text] = calls
-            if oracle_direct(ctx, case, objs, bad, ext, text, calls, outcomes, slices):
-                reqs.append(dict(mreq(ext), op="file", mode="text" if text else "binary", msgs=[tree_of(o) for o in objs]))
-                after.append(("file", (case, "text" if text else "binary", calls_for_model(calls))))
-            else:
-                ctx.count("tie-skipped:oracle-failed")
-        try:
-            same = content_of(res[False], False).decode("utf-8") == content_of(res[True], True)
-        except (UnicodeError, TypeError, AttributeError):
-            same = False
-        if not same:
-            ctx.violation("text-mode content differs from binary-mode content", case)
+                 tags=["file-group", "group:" + case["kind"], "profile:" + pname, "group-size:%d" % len(msgs), "file-ext:%s" % ext, "via:" + via]
+                 + (["group-with-reoffer"] if any(x is not None for x in same) else [])
+                 + (["group-with-refusal"] if any(bad_kinds(m, ext) for m in msgs) else []))
+        for req, payload in check_group(ctx, case):
+            reqs.append(req)
+            after.append(("file", payload))
         ctx.count("messages-direct", n=2 * len(msgs))
 
     # -- 3. real files (BytesIO / StringIO / files on disk) -------------------------------------------
@@ -1267,22 +1474,16 @@ def run(ctx):
         ext = prof["ext"]
         ops = g_program(prng, prof, 3)
         via = "encoder" if prng.random() < 0.25 else "default"
-        case = {"kind": "logging", "ops": ops, "ext": ext, "via": via}
-        callsb, callst, captured, err = feed_logging(ops, ext, via)
-        ctx.case(case, nontrivial=len(captured) >= 3, tags=["logging-program", "profile:" + pname, "logging-ext:%s" % ext, "via:" + via])
-        ctx.count("messages-logged", n=len(captured))
-        # a message orjson itself refuses (asked directly, not through eliot) is reported by eliot as
-        # eliot:destination_failure messages and must leave no trace in the file; the oracle is about the
-        # accepted ones: one write + one flush each, in order, each line faithful
-        accepted = accepted_of(captured, ext)
-        if len(accepted) != len(captured):
-            ctx.count("programs-with-refused-message")
-        ok = oracle_logging(ctx, case, ext, callsb, callst, accepted, err)
-        if not ok:
-            ctx.count("tie-skipped:oracle-failed")
-        for text, calls in ((False, callsb), (True, callst)) if ok else ():
-            reqs.append(dict(mreq(ext), op="file", mode="text" if text else "binary", msgs=[tree_of(m) for m in captured]))
-            after.append(("file", (case, "text" if text else "binary", calls_for_model(calls))))
+        # other files with other default functions registered next to them: every destination gets the same dict object
+        more = [] if prng.random() < 0.6 else prng.choice([[True], [False], ["own"], ["own", False], [True, "own"], [False, True]])
+        case = {"kind": "logging", "ops": ops, "ext": ext, "via": via, "more": more}
+        ncap, new = check_logging(ctx, case)
+        ctx.case(case, nontrivial=ncap >= 3, tags=["logging-program", "profile:" + pname, "logging-ext:%s" % ext, "via:" + via,
+                                                  "logging-destinations:%d" % (2 + len(more))])
+        ctx.count("messages-logged", n=ncap)
+        for req, payload in new:
+            reqs.append(req)
+            after.append(("file", payload))
 
     # -- 5. the model on all of it ------------------------------------------------------------------------
     answers = []
@@ -1421,28 +1622,14 @@ def replay(ctx, obj):
         msgs = [{"t": "dict", "v": [[{"t": "str", "v": [118]}, case["tree"]]]}]
         case = {"kind": "file", "msgs": msgs, "ext": ext}
         kind = "file"
-    if kind in ("file", "realfile"):
-        msgs = case["msgs"]
-        objs = [build(m) for m in msgs]
-        bad = [bool(bad_kinds(m, ext)) for m in msgs]
-        res = {}
-        base = {k: v for k, v in case.items() if k not in ("only", "mode")}
-        for text in (False, True):
-            calls, outcomes, slices = feed_direct(objs, ext, text, case.get("via", "default"))
-            res[text] = calls
-            print("text" if text else "binary", [(c[0], c[1][:80] if c[0] == "w" else None) for c in calls])
-            oracle_direct(ctx, base, objs, bad, ext, text, calls, outcomes, slices)
-        try:
-            same = content_of(res[False], False).decode("utf-8") == content_of(res[True], True)
-        except (UnicodeError, TypeError, AttributeError):
-            same = False
-        if not same:
-            ctx.violation("text-mode content differs from binary-mode content", base)
+    if kind in ("file", "realfile", "fanout"):
+        base = {k: v for k, v in case.items() if k not in ("only", "mode", "dest")}
+        if kind == "realfile":
+            base["kind"] = "file"
+        check_group(ctx, base)
     elif kind == "logging":
-        base = {k: v for k, v in case.items() if k not in ("only",)}
-        callsb, callst, captured, err = feed_logging(case["ops"], ext, case.get("via", "default"))
-        print("binary", [(c[0], c[1][:80] if c[0] == "w" else None) for c in callsb])
-        oracle_logging(ctx, base, ext, callsb, callst, accepted_of(captured, ext), err)
+        base = {k: v for k, v in case.items() if k not in ("only", "dest")}
+        check_logging(ctx, base)
     elif kind == "loads":
         tx = "".join(map(chr, case["text"]))
         print("json.loads:", real_loads(tx))
